@@ -13,7 +13,7 @@ def run(idx, rep, tier):
         "returned in the world frame (R-FRAMERET). Scaling is decided by dimensional homogeneity (engine E3, R-DEGREE: every "
         "sum/comparison combines equal length degrees; R-RETDEGREE: returned distances and points have degree 1). Argument "
         "swap: the collider pair keeps its order through every call and support points are A-B (R-MINK); composite distance functions swap callee results back when they "
-        "pass the second primitive first (R-ROLE). A vector component used as a divisor is selected by magnitude, not by signed value (R-SELCOMP: the signed choice changes under a half turn of the scene). Equality of results "
+        "pass the second primitive first (R-ROLE). Returned vectors are affine combinations of positions (R-AFFINE: position weights inferred through +, -, constant factors and, per call site, through private helpers; `centre + absolute point` has weight 2 and moves twice as far as the scene under a translation). A vector component used as a divisor is selected by magnitude, not by signed value (R-SELCOMP: the signed choice changes under a half turn of the scene). Equality of results "
         "on concrete transformed scenes and swap symmetry of leaf formulas are NOT decided.")
     rep.assumptions = DOMAIN_D
     fr_rets = e2(idx)
@@ -27,6 +27,7 @@ def run(idx, rep, tier):
     roles.r_role(idx, rep)
     roles.r_roleagree(idx, rep)
     affine.r_originfree(idx, rep, ["distance3d.containment_test", "distance3d.containment", "distance3d.mesh", "distance3d.geometry", "distance3d.colliders"] + [x.name for x in idx.lib_modules() if x.name.startswith("distance3d.distance")], floor=100)
+    affine.r_affine(idx, rep, [m for m in mods if not any(w in m for w in ('visual', 'plot', 'benchmark', 'urdf', 'io'))], floor=200)      # translation: returned points carry position weight 1
     safediv.r_selected_component(idx, rep)      # a component picked by its SIGNED value depends on how the scene is oriented: not invariant under a half turn
     mirror.r_mirror(idx, rep)
     mirror.r_casedispatch(idx, rep)
